@@ -54,7 +54,7 @@ def real_enum(grammar, target, optimizer, limit=100000):
     return out
 
 
-def run_case(ruledir, om, rng, targets, warm):
+def run_case(ruledir, om, rng, targets, warm, via_grammar=False):
     """returns ops, expected, violations, stats"""
     common.use_impl()
     from lib_guesser.omen.optimizer import Optimizer
@@ -63,6 +63,11 @@ def run_case(ruledir, om, rng, targets, warm):
     exp = ['ok'] * len(ops)
     viol = []
     shared = Optimizer(max_length=4)
+    if via_grammar:
+        # the way the program does it: the OMEN tables and the memo table are those of a PcfgGrammar object built for this ruleset
+        # (one object per ruleset, several in one process)
+        pcfg = common.load_grammar(ruledir)
+        grammar, shared = pcfg.omen_grammar, pcfg.omen_optimizer
     order = list(targets)
     if warm:
         rng.shuffle(order)
